@@ -26,7 +26,8 @@ from praatio import audio
 RULE = ("widths {1,2,4} x rates {8, 64, 8000, 16000, 44100} x 0..400 samples (random, ramps, constant, always with the extremes "
         "-2^(8w-1), 2^(8w-1)-1, 0, -1 of the width mixed in) x times on sample boundaries, off them, exactly half-way (dyadic "
         "k/2^m so that t*rate is exact), decimals with 1-4 digits and thirds (oracle only when t*rate is inexact), 0 and the "
-        "duration, a few outside [0,duration] (model correspondence only). operations: _getIndexAtTime, getFrames, getSamples, "
+        "duration, and times OUTSIDE [0,duration] (negative, just outside, far beyond the end: judged by the oracle as the "
+        "nearest sample boundary of the recording). operations: _getIndexAtTime, getFrames, getSamples, "
         "duration, convertToBytes/convertFromBytes (in and out of range, whole and ragged byte strings), histories of 1..6 "
         "insert/deleteSegment/replaceSegment/concatenate/getSubwav (state compared after every step), insert-then-delete of "
         "the same stretch, Wav.save -> Wav.open and QueryWav.getSamples / readFramesAtTime on real temp files, plus unit "
@@ -41,7 +42,9 @@ ASSUMPTIONS = ["mono recordings, sample widths 1, 2, 4, frame rate a positive in
                "|t*rate| < 2^53); other times (0.3, 1/3, k/8000 ...) are checked by the oracle only",
                "where the exact product t*rate lies within one binary64 rounding error (|x|*2^-52) of a half-sample point, or exactly "
                "on it, the oracle accepts either neighbouring sample index ('the sample indices nearest to the requested times')",
-               "times are taken in [0, duration] for the oracle; start <= end for two-time operations"]
+               "times are arbitrary (negative, beyond the end): 'the sample indices nearest to the requested times' is read as the "
+               "nearest of the recording's sample boundaries 0..n; start <= end for two-time operations; the insert-then-delete "
+               "clause is judged for insertion times in [0, duration]"]
 
 WIDTHS = [1, 2, 4]
 RATES = [8, 64, 8000, 16000, 44100, 48000, 7, 3]
@@ -140,6 +143,11 @@ def nearest_x(x):
     return [k for k in (fl - 1, fl, fl + 1, fl + 2) if abs(k - x) <= HALF + tol]
 
 
+def nearest_in(t, rate, n):
+    """the acceptable sample boundaries of a recording of n samples for time t: the nearest index, clamped into [0, n]"""
+    return sorted(set(min(max(k, 0), n) for k in nearest(t, rate)))
+
+
 def is_half(x):
     return x == math.floor(x) + 0.5
 
@@ -199,7 +207,7 @@ def encode(c, enc):
         return f"a_unpack {c['w']} {hx(c['hex'])}"
     wv = f"{c['w']} {c['rate']} {hx(c['hex'])}"
     if op == "index":
-        return f"a_index {c['w']} {c['rate']} {q(c['t'])}"
+        return f"a_index {wv} {q(c['t'])}"
     if op == "getframes":
         return f"a_getframes {wv} {q(c['t0'])} {q(c['t1'])}"
     if op == "getsamples":
@@ -350,15 +358,12 @@ def expect_edit(S, e, w, rate):
     if k == "cat":
         G = decode(bytes.fromhex(e[1]), w)
         return None if G is None else [S + G]
-    ts = [x for x in e[1:] if isinstance(x, float)]
-    if not all(in_domain(t, n, rate) for t in ts):
-        return None
     if k == "ins":
         G = decode(bytes.fromhex(e[2]), w)
-        return None if G is None else [S[:i] + G + S[i:] for i in nearest(e[1], rate)]
+        return None if G is None else [S[:i] + G + S[i:] for i in nearest_in(e[1], rate, n)]
     if Fraction(e[1]) > Fraction(e[2]):
         return None
-    pairs = [(i, j) for i in nearest(e[1], rate) for j in nearest(e[2], rate) if i <= j]
+    pairs = [(i, j) for i in nearest_in(e[1], rate, n) for j in nearest_in(e[2], rate, n) if i <= j]
     if k == "del":
         return [S[:i] + S[j:] for i, j in pairs]
     if k == "rep":
@@ -378,14 +383,15 @@ def oracle_range(c, got, sig):
     n = len(S)
     t0 = 0.0 if c["t0"] is None else c["t0"]
     t1 = c["t1"]
-    if not in_domain(t0, n, rate) or (t1 is not None and (not in_domain(t1, n, rate) or Fraction(t1) < Fraction(t0))):
+    if t1 is not None and Fraction(t1) < Fraction(t0):
         return None
     sig = dict(sig, op="readFramesAtTime", via=c["op"])
     if got is None:
         return Failure(dict(sig, clause="whole-samples"), "the frames returned are not a whole number of samples")
     x0 = Fraction(t0) * rate
     x1 = Fraction(n) if t1 is None else Fraction(t1) * rate
-    I, J = nearest_x(x0), nearest_x(x1)
+    I = sorted(set(min(max(k, 0), n) for k in nearest_x(x0)))
+    J = sorted(set(min(max(k, 0), n) for k in nearest_x(x1)))
     if any(got == S[i:j] for i in I for j in J if i <= j):
         return None
     return Failure(dict(sig, clause="range"), f"[{c['t0']},{c['t1']}] at rate {rate}: samples {got[:8]}… ({len(got)}) are not S[{I}:{J}]")
@@ -432,26 +438,24 @@ def oracle(c, r):
         return None  # ragged recordings: correspondence only
     n = len(S)
     if op == "index":
-        if not in_domain(c["t"], n, rate):
-            return None
         if r[0] == "err":
             return Failure(dict(sig, clause="no-error", exc=r[1]), f"_getIndexAtTime raised {r[1]}")
         if r[1] % w:
             return Failure(dict(sig, clause="aligned"), f"index {r[1]} is not a multiple of the sample width {w} (t={c['t']}, rate={rate})")
-        if r[1] // w not in nearest(c["t"], rate):
+        if r[1] // w not in nearest_in(c["t"], rate, n):
             return Failure(dict(sig, clause="nearest"), f"index {r[1]}/{w} but t*rate = {float(Fraction(c['t']) * rate)}")
         return None
     if op in ("getframes", "getsamples"):
         t0, t1 = c["t0"], c["t1"]
-        if not (in_domain(t0, n, rate) and in_domain(t1, n, rate) and Fraction(t0) <= Fraction(t1)):
+        if not Fraction(t0) <= Fraction(t1):
             return None
         if r[0] == "err":
             return Failure(dict(sig, clause="no-error", exc=r[1]), f"{op}({t0},{t1}) raised {r[1]} (width {w}, rate {rate})")
         got = decode(bytes.fromhex(r[1]), w) if op == "getframes" else r[1]
         if got is None:
             return Failure(dict(sig, clause="whole-samples"), f"getFrames({t0},{t1}) returned a ragged byte string")
-        if not any(got == S[i:j] for i in nearest(t0, rate) for j in nearest(t1, rate) if i <= j):
-            return Failure(dict(sig, clause="range"), f"{op}({t0},{t1}) at rate {rate}: {got[:8]}… ({len(got)}) is not S[{nearest(t0, rate)}:{nearest(t1, rate)}]")
+        if not any(got == S[i:j] for i in nearest_in(t0, rate, n) for j in nearest_in(t1, rate, n) if i <= j):
+            return Failure(dict(sig, clause="range"), f"{op}({t0},{t1}) at rate {rate}: {got[:8]}… ({len(got)}) is not S[{nearest_in(t0, rate, n)}:{nearest_in(t1, rate, n)}]")
         return None
     if op == "duration":
         if r[0] == "err":
@@ -509,14 +513,14 @@ def oracle(c, r):
     if op == "readat":
         if r[0] == "err":
             t0, t1 = c["t0"], c["t1"]
-            if in_domain(t0, n, rate) and in_domain(t1, n, rate) and Fraction(t0) <= Fraction(t1):
+            if Fraction(t0) <= Fraction(t1):
                 return Failure(dict(sig, clause="no-error", exc=r[1]), f"readFramesAtTime({t0},{t1}) raised {r[1]}")
             return None
         return oracle_range(c, decode(bytes.fromhex(r[1]), w), sig)
     if op == "query":
         if r[0] == "err":
             t0 = 0.0 if c["t0"] is None else c["t0"]
-            if in_domain(t0, n, rate) and (c["t1"] is None or (in_domain(c["t1"], n, rate) and Fraction(t0) <= Fraction(c["t1"]))):
+            if c["t1"] is None or Fraction(t0) <= Fraction(c["t1"]):
                 return Failure(dict(sig, clause="no-error", exc=r[1]), f"QueryWav.getSamples({c['t0']},{c['t1']}) raised {r[1]}")
             return None
         v = r[1]
@@ -601,7 +605,22 @@ def corpus():
     yield {"op": "getsamples", "w": 1, "rate": 8, "hex": ramp(9, 1), "t0": 0.0625, "t1": 0.203125}
     yield {"op": "query", "w": 1, "rate": 8, "hex": ramp(9, 1), "t0": 0.3125, "t1": None}
     yield {"op": "query", "w": 2, "rate": 44100, "hex": "0080ff7fff7fff7fff7fff7fff7fff7fff7f0000ff7fff7f", "t0": 0.00010204081632653062, "t1": None}
-    # wave.Error on a position beyond the file; a reversed window is empty
+    # C16-2 (fixed, 300c9d2): times outside the recording.  A negative time became a negative Python slice bound (counted from
+    # the END of the frames): getSamples(-0.5, 0.5) was empty, deleteSegment(-0.5, 0.25) returned 26 samples for 16,
+    # insert(-0.25, x) put x before the last two samples; QueryWav raised wave.Error for the same windows and for a start
+    # beyond the end (where Wav returns nothing)
+    for w in WIDTHS:
+        yield {"op": "getsamples", "w": w, "rate": 8, "hex": ramp(16, w), "t0": -0.5, "t1": 0.5}
+        yield {"op": "getframes", "w": w, "rate": 8, "hex": ramp(16, w), "t0": 1.5, "t1": 9.0}
+        yield {"op": "edits", "w": w, "rate": 8, "hex": ramp(16, w), "edits": [["del", -0.5, 0.25]]}
+        yield {"op": "edits", "w": w, "rate": 8, "hex": ramp(16, w), "edits": [["ins", -0.25, ramp(1, w, 77)]]}
+        yield {"op": "edits", "w": w, "rate": 8, "hex": ramp(16, w), "edits": [["rep", -1.0, 0.25, ramp(2, w, 77)], ["sub", -0.5, 99.0], ["ins", 50.0, ramp(1, w, 55)]]}
+        yield {"op": "query", "w": w, "rate": 8, "hex": ramp(16, w), "t0": -0.5, "t1": 0.5}
+        yield {"op": "query", "w": w, "rate": 8, "hex": ramp(16, w), "t0": 3.0, "t1": 9.0}
+        yield {"op": "readat", "w": w, "rate": 8, "hex": ramp(16, w), "t0": -0.5, "t1": 0.5}
+        yield {"op": "index", "w": w, "rate": 8, "hex": ramp(16, w), "t": -0.5}
+        yield {"op": "index", "w": w, "rate": 8, "hex": ramp(16, w), "t": 2.5}
+    # a position beyond the file reads nothing (was wave.Error); a reversed window is empty
     yield {"op": "readat", "w": 1, "rate": 8, "hex": ramp(9, 1), "t0": 2.0, "t1": 3.0}
     yield {"op": "readat", "w": 1, "rate": 8, "hex": ramp(9, 1), "t0": 0.5, "t1": 0.25}
     yield {"op": "query", "w": 2, "rate": 8000, "hex": ramp(40, 2), "t0": None, "t1": None}
@@ -654,13 +673,13 @@ def gen_time(rnd, rate, n, kind=None, exact=False):
     """a float time for a recording of n samples at `rate`; exact=True: only times whose product with the rate is
     exact in binary64 (so that the case is compared with the model as well as with the oracle)"""
     if exact and rate not in (8, 64) and kind is None:
-        kind = rnd.choice(["dyad"] * 6 + ["halfd", "halfd", "zero", "out"])
+        kind = rnd.choice(["dyad"] * 6 + ["halfd", "halfd", "zero", "out", "out", "neg"])
         if kind == "halfd":
             ks = [k for k in (62, 187, 312) if k < n]
             if ks:
                 return (2 * rnd.choice(ks) + 1) / (2 * rate)
             kind = "dyad"
-    kind = kind or rnd.choice(["on", "on", "off", "off", "half", "half", "dyad", "dec", "third", "zero", "end", "out"])
+    kind = kind or rnd.choice(["on", "on", "off", "off", "half", "half", "dyad", "dec", "third", "zero", "end", "out", "out", "neg"])
     k = rnd.randint(0, n)
     if kind == "on":
         return k / rate
@@ -684,7 +703,13 @@ def gen_time(rnd, rate, n, kind=None, exact=False):
         return 0.0
     if kind == "end":
         return n / rate
-    return rnd.choice([-1 / rate, -0.5, (n + 1) / rate, (n + 3.5) / rate, n / rate + 1.0])
+    if kind == "neg":
+        j = rnd.randint(0, n + 2)
+        return rnd.choice([-j / rate, -(2 * j + 1) / (2 * rate), -0.25 / rate, -0.75 / rate, -0.3, -1.0, -float(rnd.randint(2, 10 ** 6)),
+                           -j / 8.0, -1e-9])
+    j = rnd.randint(0, n + 2)
+    return rnd.choice([-1 / rate, -0.5, (n + 1) / rate, (n + 3.5) / rate, n / rate + 1.0, (n + j) / rate, (2 * n + j + 0.5) / rate,
+                       n / rate + j / 8.0, float(rnd.randint(2, 10 ** 6)) + n / rate, 1e9, (n + 0.25) / rate, (n + 0.75) / rate])
 
 
 def gen_window(rnd, rate, n, exact=False):
